@@ -747,5 +747,478 @@ theorem listener_admitted_aux (M : List Nat) (h a H : Nat) (hH : H ≤ 126) (hh 
       | waiting => rw [hn] at hsw; simp at hsw
       | panic => rw [hn] at hsw; simp at hsw
 
+
+/-! ### After the admission: the enlarged ring agrees -/
+
+theorem passTo_other (s : Net) (h n x : Nat) (nx : Node) (ex : s.node x = some nx) (c1 : x ≠ h) (c2 : x ≠ n) :
+    (passTo s h n).node x = some { nx with ring := nx.ring.witness h n } := by
+  rw [passTo_node, ex]; simp only [Option.map_some]; unfold passNode; rw [if_neg c1, if_neg c2]
+
+theorem passTo_sender (s : Net) (h n : Nat) (nh : Node) (e : s.node h = some nh) :
+    (passTo s h n).node h =
+      some { nh with ring := nh.ring.witness h n, mode := if accepted s h n then .idle else nh.mode } := by
+  rw [passTo_node, e]; simp only [Option.map_some]; unfold passNode; rw [if_pos rfl]
+
+theorem passTo_target_ps (s : Net) (h n : Nat) (nn : Node) (e : s.node n = some nn) (c : n ≠ h)
+    (hi : nn.mode = .idle) (hps : nn.ring.ps = h) :
+    (passTo s h n).node n = some { nn with mode := .hold, pend := none } := by
+  rw [passTo_node, e]; simp only [Option.map_some]; unfold passNode
+  rw [if_neg c, if_pos rfl, hi]; simp only; rw [if_pos hps]
+
+theorem passTo_target_pend (s : Net) (h n : Nat) (nn : Node) (e : s.node n = some nn) (c : n ≠ h)
+    (hi : nn.mode = .idle) (hps : nn.ring.ps ≠ h) (hp : nn.pend = some h) :
+    (passTo s h n).node n = some { nn with mode := .hold, ring := nn.ring.witness h n, pend := none } := by
+  rw [passTo_node, e]; simp only [Option.map_some]; unfold passNode
+  rw [if_neg c, if_pos rfl, hi]; simp only; rw [if_neg hps, if_pos hp]
+
+theorem passTo_target_new (s : Net) (h n : Nat) (nn : Node) (e : s.node n = some nn) (c : n ≠ h)
+    (hi : nn.mode = .idle) (hps : nn.ring.ps ≠ h) (hp : nn.pend ≠ some h) :
+    (passTo s h n).node n = some { nn with pend := some h } := by
+  rw [passTo_node, e]; simp only [Option.map_some]; unfold passNode
+  rw [if_neg c, if_pos rfl, hi]; simp only; rw [if_neg hps, if_neg hp]
+
+theorem passTo_none (s : Net) (h n x : Nat) : (passTo s h n).node x = none ↔ s.node x = none := by
+  rw [passTo_node]; cases s.node x <;> simp
+
+/-- Witnessing a pass `SA → DA` whose swept range holds no known member but SA: the view now knows
+`X ∪ {SA}`. -/
+theorem viewOk_witness_gen (X X' : List Nat) (x sa da : Nat) (r : TokenRing) (v : ViewOk X x r)
+    (hsa : sa ≤ 125) (hda : da ≤ 125) (hfree : ∀ b ∈ X, inPassGap sa da b = true → b = sa)
+    (hX' : ∀ y, y ∈ X' ↔ y = sa ∨ y ∈ X) : ViewOk X' x (r.witness sa da) := by
+  rw [witness_valid r sa da v.valid hsa hda]
+  exact ⟨(updateLas_las r _ _).2.trans v.ts, (updateLas_las r _ _).1.trans v.valid,
+    updateLas_lasIs r X X' sa da v.las hfree hX', updateLas_nbr r _ _⟩
+
+/-- `set_next_station(a)` on a view that knows `M`, for `a` in the own GAP: the view knows `M ∪ {a}`. -/
+theorem viewOk_setNext (M M' : List Nat) (h a : Nat) (r r' : TokenRing) (v : ViewOk M h r) (hh : h ∈ M)
+    (hbt : Between h (cycSucc h M) a) (hM' : ∀ y, y ∈ M' ↔ y = a ∨ y ∈ M)
+    (e : r.setNextStation a = some r') : ViewOk M' h r' := by
+  have hnb := setNextStation_nbr r r' a e
+  have hts := setNextStation_ts r r' a e
+  unfold setNextStation at e
+  split at e
+  · cases e
+  · rename_i hlt
+    injection e with e
+    subst e
+    refine ⟨hts.trans v.ts, (updateLas_las _ _ _).1.trans v.valid, ?_, hnb⟩
+    have hl0 : LasIs { r with active := Vector.ofFn fun i => if i.val = a then true else r.active[i] } (a :: M) := by
+      intro y hy
+      have : isActive { r with active := Vector.ofFn fun i => if i.val = a then true else r.active[i] } y
+          = (if y = a then true else r.isActive y) := by simp [isActive, hy]
+      rw [this, v.las y hy]
+      by_cases c : y = a <;> simp [c]
+    rw [v.ts]
+    apply updateLas_lasIs _ (a :: M) M' h a hl0
+    · intro b hb hg
+      simp only [List.mem_cons] at hb
+      rcases hb with rfl | hb
+      · rw [inPassGap_arith] at hg; have := hbt.1; omega
+      · by_cases c : b = h
+        · exact c
+        · exact absurd (inPassGap_sub1 h _ a b hbt hg c) (no_member_between h _ M (cycSucc_spec h M) hh b hb)
+    · intro y
+      rw [hM', List.mem_cons]
+      constructor
+      · intro hy; exact Or.inr hy
+      · rintro (rfl | hy)
+        · exact Or.inr hh
+        · exact hy
+
+
+/-- The state right after the admitting poll and `h`'s token pass, station by station. -/
+theorem admit_nodes (s : Net) (M : List Nat) (h a : Nat) (absent : List Nat) (g : Option Nat) (H : Nat)
+    (inv : SweepInv s M h h a absent g H) (hbt : Between h (cycSucc h M) a) (ha : a < 128)
+    (hp : nextGapPoll h (cycSucc h M) H (g.getD h) = .poll a) :
+    ∃ nh na r', s.node h = some nh ∧ s.node a = some na ∧ ViewOk M a na.ring ∧ ViewOk M h nh.ring ∧ nh.pend = none ∧
+      nh.ring.setNextStation a = some r' ∧
+      (pass (gapPoll s h) h).node h = some { nh with gap := some a, ring := r'.witness h a, mode := .idle } ∧
+      (pass (gapPoll s h) h).node a = some { na with mode := .hold, pend := none } ∧
+      ∀ x, x ≠ h → x ≠ a →
+        (pass (gapPoll s h) h).node x = (s.node x).map fun nx => { nx with ring := nx.ring.witness h a } := by
+  obtain ⟨nh, e, hmode, hns⟩ := agreed_holder_node s M h inv.agreed
+  have hv := inv.agreed.view h nh e (by rw [hmode]; simp)
+  have hg := inv.gap nh e
+  obtain ⟨na, ea, hl, v⟩ := inv.listener.node
+  have hne : a ≠ h := fun c => inv.listener.notMem (c ▸ inv.agreed.hmem)
+  have hps : na.ring.ps = h := by
+    rw [(viewOk_ns M inv.agreed.ring a na.ring v).2]
+    exact cycPred_of_between h a M inv.agreed.hmem hbt
+  have hready : na.ring.readyForRing = true := by simp [readyForRing, v.valid]
+  have hresp : responds s h a = true := by
+    unfold responds; rw [ea]; simp [hl, hready, hps]
+  have hnode : ∀ x, (gapPoll s h).node x = (s.node x).map (gapPollNode h a true x) := by
+    intro x
+    unfold gapPoll
+    rw [e]
+    simp only [hmode, if_true, hns, inv.hsa, hg, hp, hresp]
+  obtain ⟨r', hr'⟩ : ∃ r', nh.ring.setNextStation a = some r' := by
+    unfold setNextStation; rw [if_neg (by omega)]; exact ⟨_, rfl⟩
+  have hns' : r'.ns = a := setNextStation_ns nh.ring r' a hr' (by rw [hv.1.ts]; exact hne)
+  have hh : (gapPoll s h).node h = some { nh with gap := some a, ring := r' } := by
+    rw [hnode, e]
+    simp only [Option.map_some, Option.some.injEq]
+    unfold gapPollNode
+    rw [if_pos rfl, hr']; rfl
+  have haa : (gapPoll s h).node a = some { na with mode := .idle, pend := none } := by
+    rw [hnode, ea]
+    simp only [Option.map_some, Option.some.injEq]
+    unfold gapPollNode
+    rw [if_neg hne, if_pos ⟨rfl, hl, hready⟩]
+  have hoth : ∀ x, x ≠ h → x ≠ a → (gapPoll s h).node x = s.node x := by
+    intro x c1 c2
+    rw [hnode]
+    cases ex : s.node x with
+    | none => rfl
+    | some nx =>
+      simp only [Option.map_some, Option.some.injEq]
+      unfold gapPollNode
+      rw [if_neg c1, if_neg (fun c => c2 c.1)]
+  have hacc : accepted (gapPoll s h) h a = true := by
+    unfold accepted; rw [haa]; unfold accepts; simp [hne, hps]
+  have hpass : pass (gapPoll s h) h = passTo (gapPoll s h) h a := by
+    rw [pass_eq _ h _ hh hmode]
+    show passTo (gapPoll s h) h r'.ns = _
+    rw [hns']
+  refine ⟨nh, na, r', e, ea, v, hv.1, hv.2, hr', ?_, ?_, ?_⟩
+  · rw [hpass, passTo_sender _ h a _ hh, hacc]; rfl
+  · rw [hpass, passTo_target_ps _ h a _ haa hne rfl hps]
+  · intro x c1 c2
+    rw [hpass]
+    cases ex : s.node x with
+    | none =>
+      have : (gapPoll s h).node x = none := by rw [hoth x c1 c2, ex]
+      rw [(passTo_none _ h a x).mpr this]; rfl
+    | some nx =>
+      have : (gapPoll s h).node x = some nx := by rw [hoth x c1 c2, ex]
+      rw [passTo_other _ h a x nx this c1 c2]; rfl
+
+
+/-- The ring right after the admission of `a` by `h`: `a` holds the token, `h` already knows
+`M' = M ∪ {a}`, everybody else (including `a`) still knows `M`. -/
+structure Admitted (s : Net) (M M' : List Nat) (h a : Nat) : Prop where
+  ring : IsRing M
+  ring' : IsRing M'
+  mem' : ∀ x, x ∈ M' ↔ x = a ∨ x ∈ M
+  hmem : h ∈ M
+  notMem : a ∉ M
+  between : Between h (cycSucc h M) a
+  members : ∀ x, x ∈ M' ↔ ∃ nx, s.node x = some nx ∧ nx.mode ≠ .listen
+  holder : ∀ x nx, s.node x = some nx → (nx.mode = .hold ↔ x = a)
+  view : ∀ x nx, s.node x = some nx → nx.mode ≠ .listen →
+    nx.pend = none ∧ (if x = h then ViewOk M' x nx.ring else ViewOk M x nx.ring)
+
+theorem admitted_state (s : Net) (M M' : List Nat) (h a : Nat) (absent : List Nat) (g : Option Nat) (H : Nat)
+    (inv : SweepInv s M h h a absent g H) (hbt : Between h (cycSucc h M) a)
+    (hp : nextGapPoll h (cycSucc h M) H (g.getD h) = .poll a)
+    (hM' : IsRing M') (hmem' : ∀ x, x ∈ M' ↔ x = a ∨ x ∈ M) :
+    Admitted (pass (gapPoll s h) h) M M' h a := by
+  have ag := inv.agreed
+  have haM' : a ∈ M' := (hmem' a).mpr (Or.inl rfl)
+  have ha125 : a ≤ 125 := hM'.bound a haM'
+  have hh125 : h ≤ 125 := ag.ring.bound h ag.hmem
+  have hne : a ≠ h := fun c => inv.listener.notMem (c ▸ ag.hmem)
+  obtain ⟨nh, na, r', e, ea, va, vh, hpend, hr', nodeH, nodeA, nodeO⟩ :=
+    admit_nodes s M h a absent g H inv hbt (by omega) hp
+  refine ⟨ag.ring, hM', hmem', ag.hmem, inv.listener.notMem, hbt, fun x => ?_, fun x nx' ex' => ?_,
+    fun x nx' ex' hm' => ?_⟩
+  · by_cases c1 : x = h
+    · subst c1
+      rw [nodeH]
+      constructor
+      · intro _; exact ⟨_, rfl, by simp⟩
+      · intro _; exact (hmem' x).mpr (Or.inr ag.hmem)
+    · by_cases c2 : x = a
+      · subst c2
+        rw [nodeA]
+        constructor
+        · intro _; exact ⟨_, rfl, by simp⟩
+        · intro _; exact haM'
+      · rw [nodeO x c1 c2, hmem', ag.members x]
+        constructor
+        · rintro (hx | ⟨nx, ex, hm⟩)
+          · exact absurd hx c2
+          · exact ⟨{ nx with ring := nx.ring.witness h a }, by rw [ex]; rfl, hm⟩
+        · rintro ⟨nx', ex', hm'⟩
+          right
+          cases ex : s.node x with
+          | none => rw [ex] at ex'; cases ex'
+          | some nx =>
+            rw [ex] at ex'
+            simp only [Option.map_some, Option.some.injEq] at ex'
+            subst ex'
+            exact ⟨nx, rfl, hm'⟩
+  · by_cases c1 : x = h
+    · subst c1
+      rw [nodeH] at ex'; injection ex' with ex'; subst ex'
+      constructor
+      · intro hc; cases hc
+      · intro hc; exact absurd hc.symm hne
+    · by_cases c2 : x = a
+      · subst c2
+        rw [nodeA] at ex'; injection ex' with ex'; subst ex'
+        simp
+      · rw [nodeO x c1 c2] at ex'
+        cases ex : s.node x with
+        | none => rw [ex] at ex'; cases ex'
+        | some nx =>
+          rw [ex] at ex'
+          simp only [Option.map_some, Option.some.injEq] at ex'
+          subst ex'
+          simp only
+          rw [ag.holder x nx ex]
+          constructor
+          · intro hc; exact absurd hc c1
+          · intro hc; exact absurd hc c2
+  · by_cases c1 : x = h
+    · subst c1
+      rw [nodeH] at ex'; injection ex' with ex'; subst ex'
+      rw [if_pos rfl]
+      refine ⟨hpend, ?_⟩
+      have v1 := viewOk_setNext M M' x a nh.ring r' vh ag.hmem hbt hmem' hr'
+      exact viewOk_witness_gen M' M' x x a r' v1 hh125 ha125 (free_ha' M M' x a ag.hmem hbt hmem')
+        (fun y => ⟨Or.inr, fun hy => hy.elim (fun c => c ▸ (hmem' x).mpr (Or.inr ag.hmem)) id⟩)
+    · rw [if_neg c1]
+      by_cases c2 : x = a
+      · subst c2
+        rw [nodeA] at ex'; injection ex' with ex'; subst ex'
+        exact ⟨rfl, va⟩
+      · rw [nodeO x c1 c2] at ex'
+        cases ex : s.node x with
+        | none => rw [ex] at ex'; cases ex'
+        | some nx =>
+          rw [ex] at ex'
+          simp only [Option.map_some, Option.some.injEq] at ex'
+          subst ex'
+          have v := ag.view x nx ex hm'
+          refine ⟨v.2, ?_⟩
+          exact viewOk_witness_gen M M x h a nx.ring v.1 hh125 ha125 (free_ha M h a ag.hmem hbt)
+            (fun y => ⟨Or.inr, fun hy => hy.elim (fun c => c ▸ ag.hmem) id⟩)
+
+/-- Agreement from a station-by-station description. -/
+theorem agreed_of_nodes (s : Net) (M : List Nat) (hd : Nat) (hM : IsRing M) (hhd : hd ∈ M)
+    (f : ∀ x, x ∈ M → ∃ nx, s.node x = some nx ∧ nx.mode ≠ .listen ∧ (nx.mode = .hold ↔ x = hd) ∧
+      ViewOk M x nx.ring ∧ nx.pend = none)
+    (g : ∀ x, x ∉ M → ∀ nx, s.node x = some nx → nx.mode = .listen) : Agreed s M hd := by
+  refine ⟨hM, hhd, fun x => ⟨fun hx => ?_, fun ⟨nx, ex, hm⟩ => ?_⟩, fun x nx ex hm => ?_, fun x nx ex => ?_⟩
+  · obtain ⟨nx, ex, hm, _⟩ := f x hx; exact ⟨nx, ex, hm⟩
+  · by_cases hx : x ∈ M
+    · exact hx
+    · exact absurd (g x hx nx ex) hm
+  · by_cases hx : x ∈ M
+    · obtain ⟨nx', ex', _, _, v, p⟩ := f x hx
+      rw [ex] at ex'; cases ex'; exact ⟨v, p⟩
+    · exact absurd (g x hx nx ex) hm
+  · by_cases hx : x ∈ M
+    · obtain ⟨nx', ex', _, hh, _⟩ := f x hx
+      rw [ex] at ex'; cases ex'; exact hh
+    · have := g x hx nx ex
+      constructor
+      · intro hc; rw [this] at hc; cases hc
+      · intro hc; exact absurd (hc ▸ hhd) hx
+
+
+/-- Witnessing the new member's pass `a → n` completes any view that knows `M` or already `M ∪ {a}`. -/
+theorem viewOk_an (M M' : List Nat) (h a x : Nat) (r : TokenRing) (hM' : IsRing M') (hM : IsRing M) (hh : h ∈ M)
+    (hbt : Between h (cycSucc h M) a) (hmem' : ∀ y, y ∈ M' ↔ y = a ∨ y ∈ M)
+    (v : ViewOk M x r ∨ ViewOk M' x r) : ViewOk M' x (r.witness a (cycSucc h M)) := by
+  have ha125 : a ≤ 125 := hM'.bound a ((hmem' a).mpr (Or.inl rfl))
+  have hn125 : cycSucc h M ≤ 125 := hM.bound _ (cycSucc_mem h M hh)
+  rcases v with v | v
+  · exact viewOk_witness_gen M M' x a _ r v ha125 hn125 (free_an M h a hh hbt) hmem'
+  · exact viewOk_witness_gen M' M' x a _ r v ha125 hn125 (free_an' M M' h a hh hbt hmem')
+      (fun y => ⟨Or.inr, fun hy => hy.elim (fun c => c ▸ (hmem' a).mpr (Or.inl rfl)) id⟩)
+
+/-- **The enlarged ring agrees.**  From the state right after the admission, the new member's own
+token pass to its NS (= the old NS of `h`) makes every station's LAS `M ∪ {a}`: if that NS is `h`
+itself (two-station ring) `h` already knows `a` as its PS and accepts at once; otherwise the NS sees
+an unknown sender, waits for the repetition, and accepts the second pass. -/
+theorem admitted_agrees (s : Net) (M M' : List Nat) (h a : Nat) (ad : Admitted s M M' h a) :
+    (cycSucc h M = h → Agreed (pass s a) M' h) ∧
+    (cycSucc h M ≠ h → Agreed (pass (pass s a) a) M' (cycSucc h M)) := by
+  have haM' : a ∈ M' := (ad.mem' a).mpr (Or.inl rfl)
+  have hhM' : h ∈ M' := (ad.mem' h).mpr (Or.inr ad.hmem)
+  have hne : a ≠ h := fun c => ad.notMem (c ▸ ad.hmem)
+  have hnM : cycSucc h M ∈ M := cycSucc_mem h M ad.hmem
+  have hnM' : cycSucc h M ∈ M' := (ad.mem' _).mpr (Or.inr hnM)
+  have hna : cycSucc h M ≠ a := fun c => ad.notMem (c ▸ hnM)
+  obtain ⟨na, ea, hma⟩ := (ad.members a).mp haM'
+  have hhold : na.mode = .hold := (ad.holder a na ea).mpr rfl
+  have va := ad.view a na ea hma
+  rw [if_neg hne] at va
+  have hnsa : na.ring.ns = cycSucc h M := by
+    rw [(viewOk_ns M ad.ring a _ va.2).1]; exact cycSucc_of_between h a M ad.hmem ad.between
+  have hpass : pass s a = passTo s a (cycSucc h M) := by rw [pass_eq s a na ea hhold, hnsa]
+  have idle : ∀ x nx, s.node x = some nx → nx.mode ≠ .listen → x ≠ a → nx.mode = .idle := by
+    intro x nx ex hm hx
+    cases hmode : nx.mode with
+    | idle => rfl
+    | listen => exact absurd hmode hm
+    | hold => exact absurd ((ad.holder x nx ex).mp hmode) hx
+  have outside : ∀ x, x ∉ M' → ∀ nx, s.node x = some nx → nx.mode = .listen := by
+    intro x hx nx ex
+    cases hmode : nx.mode with
+    | listen => rfl
+    | idle => exact absurd ((ad.members x).mpr ⟨nx, ex, by rw [hmode]; simp⟩) hx
+    | hold => exact absurd ((ad.members x).mpr ⟨nx, ex, by rw [hmode]; simp⟩) hx
+  have van := fun x r v => viewOk_an M M' h a x r ad.ring' ad.ring ad.hmem ad.between ad.mem' v
+  have oldview : ∀ x nx, s.node x = some nx → nx.mode ≠ .listen → ViewOk M x nx.ring ∨ ViewOk M' x nx.ring := by
+    intro x nx ex hm
+    have := (ad.view x nx ex hm).2
+    by_cases c : x = h
+    · rw [if_pos c] at this; exact Or.inr this
+    · rw [if_neg c] at this; exact Or.inl this
+  constructor
+  · -- two-station case: the old NS of `h` is `h` itself
+    intro hc
+    obtain ⟨nh, eh, hmh⟩ := (ad.members h).mp hhM'
+    have hidle := idle h nh eh hmh hne.symm
+    have vh := ad.view h nh eh hmh
+    rw [if_pos rfl] at vh
+    have hps : nh.ring.ps = a := by
+      rw [(viewOk_ns M' ad.ring' h _ vh.2).2]
+      have := cycPred_cycSucc a M' ad.ring'.asc haM'
+      rwa [cycSucc_enlarged M M' h a ad.hmem ad.between ad.mem', hc] at this
+    have hacc : accepted s a h = true := by
+      unfold accepted; rw [eh]; unfold accepts; simp [hne.symm, hidle, hps]
+    rw [hpass, hc]
+    rw [hc] at van
+    apply agreed_of_nodes _ M' h ad.ring' hhM'
+    · intro x hx
+      by_cases c1 : x = a
+      · subst c1
+        refine ⟨_, passTo_sender s x h na ea, ?_, ?_, van x _ (Or.inl va.2), va.1⟩
+        · rw [hacc]; simp
+        · rw [hacc]; simp only [if_true]
+          constructor
+          · intro c; cases c
+          · intro c; exact absurd c hne
+      · by_cases c2 : x = h
+        · subst c2
+          exact ⟨_, passTo_target_ps s a x nh eh hne.symm hidle hps, by simp, by simp, vh.2, rfl⟩
+        · obtain ⟨nx, ex, hm⟩ := (ad.members x).mp hx
+          refine ⟨_, passTo_other s a h x nx ex c1 c2, hm, ?_, van x _ (oldview x nx ex hm), (ad.view x nx ex hm).1⟩
+          rw [idle x nx ex hm c1]
+          constructor
+          · intro c; cases c
+          · intro c; exact absurd c c2
+    · intro x hx nx' ex'
+      have c1 : x ≠ a := fun c => hx (c ▸ haM')
+      have c2 : x ≠ h := fun c => hx (c ▸ hhM')
+      cases ex : s.node x with
+      | none => rw [(passTo_none s a h x).mpr ex] at ex'; cases ex'
+      | some nx =>
+        rw [passTo_other s a h x nx ex c1 c2] at ex'
+        injection ex' with ex'; subst ex'
+        exact outside x hx nx ex
+  · -- general case: the NS `n` of the new member does not know it yet
+    intro hc
+    obtain ⟨nn, en, hmn⟩ := (ad.members _).mp hnM'
+    have hidle := idle _ nn en hmn hna
+    have vn := ad.view _ nn en hmn
+    rw [if_neg hc] at vn
+    have hpsn : nn.ring.ps = h := by
+      rw [(viewOk_ns M ad.ring _ _ vn.2).2]; exact cycPred_cycSucc h M ad.ring.asc ad.hmem
+    have hpsn' : nn.ring.ps ≠ a := by rw [hpsn]; exact hne.symm
+    have hpend' : nn.pend ≠ some a := by rw [vn.1]; simp
+    have hacc1 : accepted s a (cycSucc h M) = false := by
+      unfold accepted; rw [en]; unfold accepts; simp [hpsn', vn.1]
+    -- first attempt
+    have n3a := passTo_sender s a (cycSucc h M) na ea
+    rw [hacc1] at n3a
+    have n3n := passTo_target_new s a _ nn en hna hidle hpsn' hpend'
+    have va3 : ViewOk M' a (na.ring.witness a (cycSucc h M)) := van a _ (Or.inl va.2)
+    have hpass2 : pass (passTo s a (cycSucc h M)) a = passTo (passTo s a (cycSucc h M)) a (cycSucc h M) := by
+      rw [pass_eq _ a _ n3a (by simpa using hhold)]
+      show passTo _ a (na.ring.witness a (cycSucc h M)).ns = _
+      rw [(viewOk_ns M' ad.ring' a _ va3).1, cycSucc_enlarged M M' h a ad.hmem ad.between ad.mem']
+    have hacc2 : accepted (passTo s a (cycSucc h M)) a (cycSucc h M) = true := by
+      unfold accepted; rw [n3n]; unfold accepts; simp [hna, hidle]
+    rw [hpass, hpass2]
+    apply agreed_of_nodes _ M' _ ad.ring' hnM'
+    · intro x hx
+      by_cases c1 : x = a
+      · subst c1
+        refine ⟨_, passTo_sender _ x _ _ n3a, ?_, ?_, van x _ (Or.inr va3), va.1⟩
+        · rw [hacc2]; simp
+        · rw [hacc2]; simp only [if_true]
+          constructor
+          · intro c; cases c
+          · intro c; exact absurd c.symm hna
+      · by_cases c2 : x = cycSucc h M
+        · rw [c2]
+          refine ⟨_, passTo_target_pend _ a _ _ n3n hna hidle hpsn' rfl, by simp, by simp, ?_, rfl⟩
+          exact van _ _ (Or.inl vn.2)
+        · obtain ⟨nx, ex, hm⟩ := (ad.members x).mp hx
+          have e3 := passTo_other s a _ x nx ex c1 c2
+          refine ⟨_, passTo_other _ a _ x _ e3 c1 c2, hm, ?_, ?_, (ad.view x nx ex hm).1⟩
+          · show nx.mode = .hold ↔ _
+            rw [idle x nx ex hm c1]
+            constructor
+            · intro c; cases c
+            · intro c; exact absurd c c2
+          · exact van x _ (Or.inr (van x _ (oldview x nx ex hm)))
+    · intro x hx nx' ex'
+      have c1 : x ≠ a := fun c => hx (c ▸ haM')
+      have c2 : x ≠ cycSucc h M := fun c => hx (c ▸ hnM')
+      cases ex : s.node x with
+      | none =>
+        rw [(passTo_none _ a _ x).mpr ((passTo_none s a _ x).mpr ex)] at ex'; cases ex'
+      | some nx =>
+        rw [passTo_other _ a _ x _ (passTo_other s a _ x nx ex c1 c2) c1 c2] at ex'
+        injection ex' with ex'; subst ex'
+        exact outside x hx nx ex
+
+
+/-- The sweep schedule reaches the poll of `a` with everything still in place. -/
+theorem sweep_reaches (M : List Nat) (h a H : Nat) (hH : H ≤ 126) (hh : h < H) (post : List Nat) :
+    ∀ (pre : List Nat) (fuel : Nat) (s : Net) (g : Option Nat), SweepInv s M h h a pre g H → g.getD h < H →
+      sweepFrom h (cycSucc h M) H fuel (g.getD h) = pre ++ a :: post →
+      ∃ g', SweepInv (visits s h M.length pre.length) M h h a [] g' H ∧
+        nextGapPoll h (cycSucc h M) H (g'.getD h) = .poll a ∧ Between h (cycSucc h M) a ∧ a < H := by
+  intro pre
+  induction pre with
+  | nil =>
+    intro fuel s g inv hcur hsw
+    cases fuel with
+    | zero => simp [sweepFrom] at hsw
+    | succ f =>
+      unfold sweepFrom at hsw
+      cases hn : nextGapPoll h (cycSucc h M) H (g.getD h) with
+      | poll x =>
+        rw [hn] at hsw
+        simp only [List.nil_append, List.cons.injEq] at hsw
+        rw [hsw.1] at hn
+        have hin := poll_inGap _ _ _ _ _ (by omega) hH hcur hn
+        have hb := (inGap_between _ _ _ _).mp hin
+        exact ⟨g, inv, hn, hb.2, hb.1⟩
+      | waiting => rw [hn] at hsw; simp at hsw
+      | panic => rw [hn] at hsw; simp at hsw
+  | cons b pre' ih =>
+    intro fuel s g inv hcur hsw
+    cases fuel with
+    | zero => simp [sweepFrom] at hsw
+    | succ f =>
+      unfold sweepFrom at hsw
+      cases hn : nextGapPoll h (cycSucc h M) H (g.getD h) with
+      | poll x =>
+        rw [hn] at hsw
+        simp only [List.cons_append, List.cons.injEq] at hsw
+        rw [hsw.1] at hn
+        have hin := poll_inGap _ _ _ _ _ (by omega) hH hcur hn
+        have hbabs : s.node b = none := inv.absent b (by simp)
+        have inv1 := sweepInv_gapPoll_absent s M h a b (b :: pre') g H inv hbabs hn
+        obtain ⟨i, _, hi⟩ := mem_nth M h inv.agreed.hmem
+        rw [← hi] at inv1
+        have inv2 := sweepInv_rotate M (nth M i) a (b :: pre') (some b) H M.length _ i inv1
+        rw [nth_add_length, hi] at inv2
+        have inv3 := sweepInv_absent_mono _ M h h a (b :: pre') pre' (some b) H inv2 (fun c hc => by simp [hc])
+        have hsw2 : sweepFrom h (cycSucc h M) H f ((some b).getD h) = pre' ++ a :: post := by
+          rw [← hsw.2, hsw.1]; rfl
+        have := ih f _ (some b) inv3 (by simpa using hin.1) hsw2
+        simpa [visits] using this
+      | waiting => rw [hn] at hsw; simp at hsw
+      | panic => rw [hn] at hsw; simp at hsw
+
 end AbstractRing
 end PV
